@@ -223,7 +223,7 @@ class Sim:
                     fn_ = last.tb_frame.f_code.co_filename
                     if fn_.startswith(_VERIF_DIR) and not isinstance(
                         e, self.intended
-                    ):
+                    ) and not getattr(e, "_sim_passthrough", False):
                         st.harness_exc = True
                         if self.harness_error is None:
                             self.harness_error = st.exc_tb
